@@ -252,6 +252,9 @@ def _declare(b, c, co, did, names, specs_by_code, imported, deferred):
     elif did == 'CAP':
         S[(code, 'CAP')] = Capitalists(co, NN(c, names, 'CAP'), alpha_income=c['a1'], alpha_fin=c['a2'],
                                        consumption_good_name=NN(c, names, 'GOOD'))
+        if c.get('capexcl'):
+            # the user declares dividends received not to be (taxable) income
+            b.model.AddCashFlowIncomeExclusion(S[(code, 'CAP')], 'DIV')
     elif did == 'LAB':
         S[(code, 'LAB')] = Market(co, NN(c, names, 'LAB'))
     elif did == 'GOOD':
@@ -461,6 +464,7 @@ def country_deviations(c, allow_gold):
     out.append(('hh=HHX', {'hh': 'HHX'}))
     out.append(('hhtax', {'hhtax': 0.1}))
     out.append(('cap', {'cap': True}))
+    out.append(('cap+div-not-income', {'cap': True, 'capexcl': True}))
     out.append(('bus=MO', {'bus': 'MO'}))
     out.append(('margin=.1', {'margin': 0.1}))
     out.append(('margin=.2125', {'margin': 0.2125}))      # (a margin whose 3-decimal renderings do not add up to one)
